@@ -359,6 +359,10 @@ pub enum ClockMode
 {
     Distinct,   // every create/write gets a fresh, strictly increasing timestamp
     Tick,       // the clock only advances between user actions and ruler invocations
+    /* every create/write gets a fresh timestamp, distinct from all others but in no particular
+       order (clock set back, files restored with their old dates, another machine's clock): the
+       properties assume distinct modification times, not increasing ones */
+    Unordered,
 }
 
 #[derive(Clone, Debug, PartialEq, Serialize, Deserialize)]
@@ -492,9 +496,10 @@ impl World
 
     pub fn user_write(&self, path : &str, content : &[u8])
     {
+        let mode = self.0.knobs.clock;
         let mut g = self.lock();
         g.clock += 1;
-        let t = g.clock;
+        let t = if mode == ClockMode::Unordered { g.stamp(mode) } else { g.clock };
         let _ = g.disk.put_file(path, content, t);
     }
 
@@ -518,9 +523,10 @@ impl World
     /* overwrite without the courtesy of a new timestamp bookkeeping: used for damaged state files */
     pub fn user_put_raw(&self, path : &str, content : &[u8])
     {
+        let mode = self.0.knobs.clock;
         let mut g = self.lock();
         g.clock += 1;
-        let t = g.clock;
+        let t = if mode == ClockMode::Unordered { g.stamp(mode) } else { g.clock };
         let _ = g.disk.put_file(path, content, t);
     }
 
@@ -559,11 +565,17 @@ impl WorldInner
 {
     fn stamp(&mut self, mode : ClockMode) -> u64
     {
-        if mode == ClockMode::Distinct
+        match mode
         {
-            self.clock += 1;
+            ClockMode::Distinct => { self.clock += 1; self.clock },
+            ClockMode::Tick => self.clock,
+            ClockMode::Unordered =>
+            {
+                // a bijection on 40-bit numbers (odd multiplier), so distinct counters give distinct stamps
+                self.clock += 1;
+                1_000_000 + (self.clock.wrapping_mul(0x9E37_79B9_7F4A_7C15) & 0xff_ffff_ffff)
+            },
         }
-        self.clock
     }
 
     /* bookkeeping common to all mutations; returns the mutation index */
